@@ -209,6 +209,8 @@ def run_life_scenario(sc):
             obs.append("finalized:%d" % (len(T.FINALIZED) - n0))     # the callee's local is released when it returns
         if how == "exception":
             raise ProgError()
+        if how == "sysexit":
+            raise SystemExit(3)
 
     def one(traced):
         T.JOURNAL.clear()
@@ -235,7 +237,7 @@ def run_life_scenario(sc):
                         program(obs)
                 else:
                     program(obs)
-            except ProgError:
+            except (ProgError, SystemExit):
                 seen = "prog"
             except Exception as e:
                 seen, escaped = "other", type(e).__name__
